@@ -282,6 +282,21 @@ class UnitOfWork(object):
                     self.current_transaction.id
                 }
             )
+            # A link that changes more than once within one transaction
+            # (linked and unlinked again, or the other way round) keeps a
+            # single version row holding its last operation; inserting a
+            # second row would violate the version table's primary key.
+            table = stmt.table
+            params = stmt.compile().params
+            session.execute(
+                table.delete().where(
+                    sa.and_(*[
+                        table.c[name] == value
+                        for name, value in params.items()
+                        if name != 'operation_type'
+                    ])
+                )
+            )
             session.execute(stmt)
         self.pending_statements = []
 
